@@ -563,15 +563,31 @@ def check_fixedbase(res, facts):
         names = {o_it: "o", i_it: "i", w: "w"}
 
         def leaf(t):
-            return names.get(t)
+            if t in names:
+                return names[t]
+            # the window bit may be the parameter of a closure (`(0..w).filter(|&i| ..).fold(..)`)
+            if isinstance(t, tuple) and t and t[0] == "cparam" and not t[3]:
+                return "i"
+            return None
         want_bit = Q.var("o") * Q.var("w") + Q.var("i")
-        bit_reads = [E(m, t["args"][1]) for _, t in m.calls() if t["f"].get("name") == "index" and E(m, t["args"][0]) == C("to_bits_le", C("into_bigint", A(2)))]
+        hosts = [m] + [c for c in facts.fns(unit=m.unit, crate=m.crate) if c.kind == "Closure" and c.id.startswith(m.id + "::{closure")]
+
+        def L(h, o):
+            return norm(DF.lift_captures(facts, h, DF.expr(h, o, depth=40)))
+        bits_src = C("to_bits_le", C("into_bigint", A(2)))
+        bit_reads = [L(h, t["args"][1]) for h in hosts for _, t in h.calls() if t["f"].get("name") == "index" and len(t["args"]) == 2 and L(h, t["args"][0]) == bits_src]
         try:
             if len(bit_reads) != 1 or not qeq(to_q(bit_reads[0], leaf), want_bit):
                 problems.append("the scalar bit read for column bit i of row o is %s, expected bit o*w + i" % [show(x)[:80] for x in bit_reads])
         except NotPoly as e:
             problems.append("bit index is not an index polynomial of (row, bit, window): %s" % e)
-        guards = [E(m, bl["t"]["o"]) for bl in m.bbs if bl["t"]["k"] == "switch"]
+        guards = [L(h, bl["t"]["o"]) for h in hosts for bl in h.bbs if bl["t"]["k"] == "switch"]
+        # a closure may return the conjunction directly: comparisons feeding the return value count as guards too
+        for h in hosts[1:]:
+            for bi, si, st_ in h.stmts():
+                r = st_.get("r")
+                if r and r["k"] == "bin" and r["op"] == "Lt":
+                    guards.append(("bin", "Lt", L(h, r["a"]), L(h, r["b"])))
         okg = False
         for g in guards:
             if isinstance(g, tuple) and g[0] == "bin" and g[1] == "Lt" and g[3] == "MODULUS_BIT_SIZE":
@@ -582,11 +598,15 @@ def check_fixedbase(res, facts):
         if not okg:
             problems.append("the bit read is not guarded by o*w + i < MODULUS_BIT_SIZE")
         ors = []
-        for bi, si, st_ in m.stmts():
-            r = st_.get("r")
-            if r and r["k"] == "bin" and r["op"] == "BitOr":
-                ors.append((E(m, r["a"]), E(m, r["b"])))
-        if not any(("bin", "Shl", 1, i_it) in pair for pair in ors):
+        for h in hosts:
+            for bi, si, st_ in h.stmts():
+                r = st_.get("r")
+                if r and r["k"] == "bin" and r["op"] == "BitOr":
+                    ors.append((L(h, r["a"]), L(h, r["b"])))
+
+        def is_shift_i(x):
+            return isinstance(x, tuple) and x[:3] == ("bin", "Shl", 1) and (x[3] == i_it or (isinstance(x[3], tuple) and x[3] and x[3][0] == "cparam"))
+        if not any(is_shift_i(a_) or is_shift_i(b_) for a_, b_ in ors):
             problems.append("column index is not assembled as inner |= 1 << i (found %s)" % [(show(a_)[:40], show(b_)[:40]) for a_, b_ in ors])
         accs = [t for _, t in m.calls() if t["f"].get("name") == "add_assign"]
         if len(accs) != 1:
